@@ -16,7 +16,10 @@ model to asyncfix/connection.py + journaler.py + session.py and decides the prop
     Journaler + connection on the same file) and after every single effect - transport write, transport drain,
     each SQL data statement and each commit - of the last incarnation, realised by a forked CHILD PROCESS that
     runs the history and calls os._exit right after the chosen effect (counting proxies around the fake writer
-    and sqlite3.connect); the parent then reopens the file;
+    and sqlite3.connect); the parent then reopens the file.  fork is slow on a loaded VM, so real deaths are
+    taken while a wall-time budget lasts (points inside operations first); EVERY death point is also run by
+    simulated death (the proxies raise a BaseException from the chosen effect on and perform nothing, the SQLite
+    connection is closed without commit) and a point done both ways must give identical observations;
   * projection compared with the extracted model: per operation of the dry run (exception class escaping, state
     class, live and stored counters, effects so far, numbers delivered), the complete effect trace (kinds of SQL
     statements, frames written), and per restart point: counters restored by create_or_load (and sessions()),
@@ -991,7 +994,7 @@ def aborted_resend(h, dur):
 
 def classify(h, pt, kind, detail=None):
     """Name of the known-finding class that explains a failure of this kind at this restart point, or None."""
-    ops, flat = h["ops"], h["flat"]
+    ops = h["ops"]
     pre, dur = durable_prefix(h, pt)
     pkind, j, k, infl = pt
     if kind == "reuse" and detail:
@@ -1004,6 +1007,15 @@ def classify(h, pt, kind, detail=None):
         lw = max([i for i, e in enumerate(pre) if isinstance(e[1], list)], default=None)
         if lw is not None and not any(e[1] == 17 for e in pre[lw + 1:]):
             return "D14_crash_between_write_and_journal"
+    if kind in ("reuse", "nout", "inactive"):
+        # aftermath of D20: a later journal write of the old object hit the row an application-sent SequenceReset
+        # left under a number it did not consume (DuplicateSeqNoError: the live counter moved, the stored one did not)
+        for i in sorted({e[0] for e in dur}):
+            if ops[i][0] == 2 and ops[i][1] == 4:
+                for t in range(len(pre)):
+                    failed = (pre[t + 1][1] != 13) if t + 1 < len(pre) else (not infl)
+                    if pre[t][0] > i and pre[t][1] == 11 and failed:
+                        return "D20_app_sequence_reset_uncounted"
     wout = last_writer(dur, (13, 14))
     if kind in ("reuse", "nout") and wout is not None:
         o = ops[wout]
@@ -1014,13 +1026,18 @@ def classify(h, pt, kind, detail=None):
         if o[0] == 2 and o[1] == 4:
             return "D20_app_sequence_reset_uncounted"
     win = last_writer(dur, (12, 14))
-    if kind in ("nin", "rr") and win is not None:
+    if kind in ("nin", "rr", "inactive") and win is not None:
         o = ops[win]
         if o[0] == 1 and o[1] == 4:
             before = live_before(h, win)[0]
             if o[2] != before or o[4] != o[2] + 1:
                 return "D11_sequence_reset_stored_lag"
-    if kind == "rr":
+    if kind == "inactive" and detail:
+        # the new object's Logon hits a journal row left by an application-sent SequenceReset (DuplicateSeqNoError)
+        for i in sorted({e[0] for e in dur}):
+            if ops[i][0] == 2 and ops[i][1] == 4 and ops[i][2] >= detail[1]:
+                return "D20_app_sequence_reset_uncounted"
+    if kind in ("rr", "inactive"):
         # the first frame after which the endpoint's expected number and a correct receiver's differ
         end = j if not infl else j - 1
         agree = -1
@@ -1028,6 +1045,9 @@ def classify(h, pt, kind, detail=None):
             if h["steps"][i][2] == h["peer"][i][1]:
                 agree = i
         nxt = agree + 1
+        if nxt <= end and ops[nxt][0] == 4 and nxt > 0:
+            # a restart inside the history made a stored counter live: the class of that restart point
+            return classify(h, ["g", nxt - 1, -1, False], "nin")
         if nxt <= end and ops[nxt][0] == 1:
             if ops[nxt][1] == 6:
                 return "D22_peer_logout_uncounted"
@@ -1071,10 +1091,12 @@ def oracle(h, p):
         ls = res["steps"][logon_step(role)]
         rr = [f for f in res["wire"] if f is not None and f[0] == 3]
         if rr or ls[1] != 17:
-            bad.append(("rr", "no frame of the peer was lost (it sent up to %d, all received in sequence) but the Logon exchange "
+            bad.append(("rr" if rr else "inactive",
+                        "no frame of the peer was lost (it sent up to %d, all received in sequence) but the Logon exchange "
                         "after the restart %s (restored next_num_in %d)" % (
                             peer_at(h, j)[0] - 1,
-                            "contains ResendRequest %r" % rr[0] if rr else "ends in state %d, not ACTIVE" % ls[1], rest[0]), None))
+                            "contains ResendRequest %r" % rr[0] if rr else "ends in state %d, not ACTIVE" % ls[1], rest[0]),
+                        rest))
     old = [f for f in res["old_wire"] if f is not None]
     for f in res["wire"]:
         if is_original(f):
@@ -1165,6 +1187,7 @@ CURATED = [
     (2, LOGON_A + [[2, 0, 0, 0, 1, 0], [2, 0, 0, 0, 2, 0], [2, 0, 0, 0, 3, 0], [1, 3, 2, 0, 2, 0]]),
     (2, LOGON_A + [[2, 0, 0, 0, 1, 0], [2, 0, 0, 0, 2, 0], [2, 0, 0, 0, 3, 0], [1, 3, 2, 0, 2, 2], [2, 0, 0, 0, 4, 0]]),
     (2, LOGON_A + [[2, 0, 0, 0, 1, 0], [2, 0, 0, 0, 2, 0], [1, 3, 2, 0, 2, 0], [1, 3, 3, 0, 2, 0], [2, 0, 0, 0, 3, 0]]),
+    (2, LOGON_A + [[2, 0, 0, 0, 1, 0], [2, 0, 0, 0, 2, 0], [1, 3, 2, 0, 3, 0], [1, 3, 3, 0, 2, 0]]),
     (2, LOGON_A + [[2, 0, 0, 0, 1, 0], [1, 3, 2, 0, 6, 0], [2, 0, 0, 0, 2, 0]]),
     (2, LOGON_A + [[2, 0, 0, 0, 1, 0], [1, 3, 2, 0, 0, 0], [2, 0, 0, 0, 2, 0]]),
     (1, LOGON_I + [[2, 0, 0, 0, 1, 0], [1, 2, 2, 0, 5, 0], [2, 0, 0, 0, 2, 0], [1, 3, 3, 0, 1, 0]]),
@@ -1181,6 +1204,46 @@ CURATED = [
     (1, [[0], [2, 0, 0, 0, 1, 0], [2, 5, 0, 0, 0, 0], [2, 0, 0, 0, 2, 0], [1, 5, 3, 0, 0, 0], [1, 0, 4, 0, 1, 0]]),
     (2, [[0], [1, 0, 1, 0, 1, 0], [0], [1, 5, 4, 0, 0, 0], [1, 4, 1, 1, 5, 1]]),
 ]
+
+
+# the witnesses of the *_refuted theorems of Props/C09.v, as (role, ops, restart point, what the real code must show)
+WITNESSES = {
+    "C09_gapfill_lag_refuted": (2, LOGON_A + [[1, 4, 2, 0, 6, 1]], ["g", 2, -1, False],
+                                lambda h, res: h["steps"][2][2:5] == [6, 2, 2] and res["restored"][0] == 3
+                                and any(f[0] == 3 for f in res["wire"])),
+    "C09_resend_abort_refuted": (2, LOGON_A + [[2, 0, 0, 0, 1, 0], [2, 0, 0, 0, 2, 0], [1, 3, 2, 0, 3, 0], [1, 3, 3, 0, 2, 0]],
+                                 ["g", 5, -1, False],
+                                 lambda h, res: h["steps"][4][3] == 4 and h["steps"][5][1] == 10 and h["steps"][5][3] == 2
+                                 and h["steps"][5][5] == 2),
+    "C09_app_seqreset_refuted": (2, LOGON_A + [[2, 4, 2, 0, 5, 1]], ["g", 2, -1, False],
+                                 lambda h, res: h["steps"][2][3] == 2 and h["steps"][2][5] == 2 and res["restored"][1] == 3),
+    "C09_peer_logout_uncounted_refuted": (2, LOGON_A + [[1, 6, 2, 0, 0, 0]], ["g", 2, -1, False],
+                                          lambda h, res: h["steps"][2][2] == 2 and res["restored"][0] == 2
+                                          and any(f[0] == 3 for f in res["wire"]) and res["steps"][1][1] == 12),
+    "C09_crash_before_journal_refuted": (2, LOGON_A + [[2, 0, 0, 0, 9, 0]], ["c", 2, 9, True],
+                                         lambda h, res: res["restored"][1] == 2 and [0, 2, 0, 9, 0] in res["old_wire"]
+                                         and [5, 2, 0, 0, 0] in res["wire"]),
+    "C09_duplicate_inbound_row": (2, LOGON_A + [[1, 4, 2, 0, 2, 1], [1, 0, 2, 0, 1, 0]], ["g", 3, -1, False],
+                                  lambda h, res: h["steps"][3][0] == 2 and h["steps"][3][2] == 3 and h["steps"][3][4] == 2),
+}
+
+
+def confirm_witnesses(ctx, hists):
+    got = {}
+    for name, (role, ops, pt, pred) in WITNESSES.items():
+        ok = False
+        for h in hists:
+            if h["role"] == role and h["ops"] == ops:
+                for p in h["points"]:
+                    if p["pt"] == pt and "error" not in p["res"]:
+                        try:
+                            ok = bool(pred(h, p["res"]))
+                        except Exception:
+                            ok = False
+        got[name] = ok
+        if not ok:
+            ctx.notes.append("note: the witness of %s is no longer reproduced by the implementation" % name)
+    ctx.extra["refuted_witnesses_confirmed_on_impl"] = got
 
 
 def nontrivial(h, p):
@@ -1231,7 +1294,7 @@ def evaluate(ctx, hists, use_model=True):
 
 
 def make_items(ctx, rng):
-    items = [{"role": r, "ops": ops} for r, ops in corpus() + CURATED]
+    items = [{"role": r, "ops": ops} for r, ops in corpus() + CURATED + [(w[0], w[1]) for w in WITNESSES.values()]]
     n = ctx.scale(330, 3000)
     for _ in range(n):
         items.append({"role": rng.choice([1, 2]), "seed": rng.randrange(1 << 40), "len": rng.randrange(4, ctx.scale(10, 13))})
@@ -1244,6 +1307,7 @@ def run(ctx):
     ctx.extra["restart_runs_s"] = round(time.time() - t, 1)
     ctx.extra["histories"] = len(hists)
     evaluate(ctx, hists)
+    confirm_witnesses(ctx, hists)
 
 
 def corpus():
